@@ -272,7 +272,10 @@ static bool decode_line(unsigned char line_hi, unsigned char line_lo,
 	return stdout_write_error();
     }
   if (listo & 1)
-    putchar(' ');
+    {
+      if (EOF == putchar(' '))
+	return stdout_write_error();
+    }
   if (listo & 2)		/* for...next loops */
     {
       const int next_count = count(0xED, data, orig_len);
@@ -323,7 +326,8 @@ static bool decode_line(unsigned char line_hi, unsigned char line_lo,
 	in_string = !in_string;
       ++file_pos;
     }
-  putchar('\n');
+  if (EOF == putchar('\n'))
+    return stdout_write_error();
   if (listo & 2)		/* for loops */
     {
       const int for_count = count(0xE3, data, orig_len);
